@@ -93,6 +93,11 @@ def compare(proc, sv, B, W, ref, got, tol, label):
         if proc == "poisson":
             # flat likelihood: the prediction error allowed by an objective gap grows like sqrt(capture)
             tol = np.maximum(tol, 2e-3 * np.sqrt(np.maximum(np.abs(Br), 1.0)))
+        else:
+            # the solver's accuracy (1e-9) is relative to the objective of the whole stacked problem: a far out-of-gamut row in
+            # the batch (residual ~100 capture units) leaves an objective gap of 1e-9 * 1e4, i.e. a prediction error of sqrt(gap)
+            Wm_ = np.ones_like(B) if W is None else np.broadcast_to(np.asarray(W, dtype=float), B.shape)
+            tol = max(tol, 3.0 * float(np.sqrt(1e-9 * (1.0 + np.sum((Wm_ * (Br - B)) ** 2)))))
         check(np.all(err <= tol), f"{label}:prediction-differs",
               f"{proc}: predicted captures differ from the batch_size=1 result by {err.max():.3g} (tol {float(np.min(tol)):.3g}); row {int(np.argmax(err.max(axis=1)))}",
               observed=dict(ref=Br.tolist(), got=Bg.tolist()))
